@@ -66,3 +66,8 @@ package hotstuff
 //@ interface QuorumSignature.ToBytes
 //@   ensures fresh(result) || result == nil
 //@   modifies alloc
+
+//@ func NewPartialCert
+//@   trusted iterates the participant set through the IDSet interface with a closure (iterator contract not modelled)
+//@   requires signature != nil
+//@   ensures result.signature == signature && result.blockHash == blockHash
